@@ -24,6 +24,11 @@ CHECKS = {
   text="Fault enumeration in child processes: a file-system fault injector wraps the calls made for the module file (exists/stat/makedirs/mkstemp/write/close/move/rename), a fault-free pass counts them, and then EVERY k-th call is made to raise, or the process is killed before it, after it, or midway through the write (50%, 99%); after each crash the module path must hold nothing, the complete previous or the complete new module (byte comparison with a reference run on the same logical clock), and a fresh process as well as the current one must load and render the current source. In-process histories (all of length <=4/5 over 7 operations) are judged by a staleness model incl. inode/bytes stability and module_writer call counts; 2-8 processes race on the same Template.",
   note="Trusted: os._exit models process death with the kernel intact; power-loss/fsync ordering is invisible from user space; short writes that do not kill the process are not injected.",
   technique="file-system fault injection at every call + crash-state oracle + staleness model over histories"),
+ "C17": dict(
+  category="exploration", design_ref="DESIGN.md §2 C17",
+  text="History + executable cache model: generated templates (page, defs with arguments and cache_key, nested def, named and anonymous blocks, cached in any combination, buffered/filter flags, cache_* arguments at template/page/section level) run histories of render / invalidate_body / invalidate_def / invalidate_closure / invalidate(key) / set/get / cache_enabled toggles; every section prints an execution counter supplied through the context, so output and counters together show replay vs re-execution; a recording CacheImpl registered with mako.cache logs every backend call and its keyword arguments (precedence, int timeout, context on request). Backends: recording, Beaker memory/file, dogpile; several templates share a backend, including URIs that differ only in punctuation.",
+  note="Trusted: the 60-line cache model in checks/c17.py; expiry is not exercised (real-time backends). One open known finding (Cache.id collision for URIs differing only in non-word characters), recognised by a second model universe that reproduces the observation exactly.",
+  technique="recorded render/invalidate histories checked against an executable cache model + recording backend"),
  "C19": dict(
   category="exploration", design_ref="DESIGN.md §2 C19",
   text="CPython is the runtime oracle: random expression trees over the whole ast expression grammar (depth<=5) are re-emitted by Mako's ExpressionGenerator and compared by ast.dump and by value, and a sample runs end-to-end as def/page defaults and filter-call arguments; generated statement blocks (functions with every parameter kind, lambdas, comprehensions, try/with/loops/imports) run under strict_undefined with exactly the names CPython's symtable says they need and must equal native exec, and must raise NameError naming a removed name; 18 tricky block shapes are re-margined at 0..12 spaces/tabs in <% %> and <%! %> and compared with native exec.",
